@@ -935,6 +935,9 @@ func (u *Unit) cardFun(ks string) string {
 func (u *Unit) mapLen(v *HeapView, mt types.Type, ref Term) Term {
 	ks, _ := u.mapSorts(mt)
 	dom := u.mapDom(v, mt, ref)
+	if u.ctx.inQuant == 0 {
+		dom = u.ctx.Atom("dom", dom)
+	}
 	f := u.cardFun(ks)
 	c := app(f, SInt, dom)
 	r := Ite(Eq(ref, TNil), TZero, c)
@@ -1133,8 +1136,8 @@ func (u *Unit) execNext(st *State, x *ssa.Next) Value {
 	ks, _ := u.mapSorts(mt)
 	m := u.asSc(it.Map, mt)
 	view := st.View()
-	dom := u.mapDom(view, mt, m.T)
-	vis := st.Ghost["visited:"+it.ID]
+	dom := u.ctx.Atom("dom", u.mapDom(view, mt, m.T))
+	vis := u.ctx.Atom("vis", st.Ghost["visited:"+it.ID])
 	okc := u.ctx.Fresh("more", SBool)
 	k := u.ctx.Fresh("key", ks)
 	// ok => k in dom, not visited ; !ok => every key of dom visited
